@@ -25,7 +25,7 @@ Legal(s) ==
   CASE s.entry \in {"cipher_new", "aead_new"} -> s.a \in {16, 32} /\ s.b \in Rounds                 \* a = key length, b = rounds
     [] s.entry \in {"xcipher_new", "drg_new"} -> s.b \in Rounds                                       \* key is a [u8; 32]
     [] s.entry \in {"process", "aead_crypt"} -> s.a = s.b                                             \* a = input length, b = output length
-    [] s.entry = "aead1" -> s.a = s.b /\ s.c = 16 /\ s.d = 1                                          \* c = tag length, d = 1st / 2nd use of the object
+    [] s.entry = "aead1" -> s.a = s.b /\ s.c = 16 /\ s.d = 1                                          \* c = tag length, d = 1: first use of the object; 2 / 3 / 4: after an encrypt / a rejected decrypt / an accepted decrypt
     [] s.entry = "blake2_new" -> s.a >= 1 /\ s.a <= B2Max(s.v) /\ s.b <= B2Max(s.v)                   \* a = output bytes, b = key length
     [] s.entry = "blake2_bits" -> s.a >= 1 /\ (s.a + 7) \div 8 <= B2Max(s.v)                          \* a = BITS of the const-generic context
     [] s.entry = "blake2_out" -> s.b = s.a /\ (s.d = 3 => s.c <= B2Max(s.v))      \* a = context output length, b = buffer; d = 1 finalize_at, 2 finalize_reset_at, 3 .._with_key_at (c = key length)
@@ -55,7 +55,7 @@ Shapes ==
   \cup {Sh("aead_new", v, a, b, 0, 0) : v \in {"inc", "oneshot"}, a \in KeyLens, b \in {7, 8, 12, 20}}
   \cup UNION {{Sh("process", v, a, b, 0, 0) : b \in Around(a) \cup {0}} : v \in {"ietf", "xchacha", "original", "salsa", "xsalsa"}, a \in {0, 1, 64, 65}}
   \cup UNION {{Sh("aead_crypt", v, a, b, 0, 0) : b \in Around(a) \cup {0}} : v \in {"encrypt", "decrypt"}, a \in {0, 1, 17}}
-  \cup UNION {{Sh("aead1", v, a, b, c, d) : b \in Around(a), c \in {0, 15, 16, 17}, d \in {1, 2}} : v \in {"encrypt", "decrypt"}, a \in {0, 1, 17}}
+  \cup UNION {{Sh("aead1", v, a, b, c, d) : b \in Around(a), c \in {0, 15, 16, 17}, d \in {1, 2, 3, 4}} : v \in {"encrypt", "decrypt"}, a \in {0, 1, 17}}
   \cup UNION {{Sh("blake2_new", v, a, b, 0, 0) : a \in {0, 1, B2Max(v), B2Max(v) + 1}, b \in {0, 1, B2Max(v), B2Max(v) + 1}} :
                 v \in {"b_dyn", "s_dyn", "b_const", "s_const", "b_legacy", "s_legacy", "b_mac", "s_mac"}}
   \cup {Sh("blake2_bits", "b_const", a, 0, 0, 0) : a \in {0, 1, 7, 9, 250, 505, 511, 512, 513, 520}}
